@@ -72,6 +72,11 @@ chk("C20", "model_checking", "explicit-state BFS with a snapshot/restore at ever
     "Trusted: serde_json, the snapshot hook. Data rate / ADR flag are carried through public setters (not part of Session); the channel plan is not persisted, so radio configurations are not compared.",
     "DESIGN.md §3 C20")
 
+chk("C19", "model_checking", "explicit-state exploration of every command builder as a state machine (setter sequences, exhaustive field domains) against a field-value model; exhaustive text-form enumeration",
+    "Every MAC / certification / multicast-setup command builder is explored as a small state machine: the empty builder, every setter with its full value domain (all 256 / 65536 values for fields up to 16 bits, including out-of-range ones; boundary and walking-bit sets for wider fields), every ordered pair of setters including the same one twice, boundary triples in thorough. After each sequence build -> parse -> read-every-field is compared with a plain model (accept / refuse / truncate to the field; neighbours untouched; no unwind). Streams of up to three commands through mac_commands_len/build_mac_commands are parsed back. Text forms: all DevNonce values, JoinNonce/NetId/DevAddr/McAddr ranges (complete in thorough), pattern sets for 64/128-bit values; Display must be MSB-first hex of the wire value and FromStr must invert it.",
+    "Trusted: field widths/semantics transcribed from LoRaWAN 1.0.x, TS009, TS005 in c19.rs. One known finding (DeviceTimeAns byte order, pinned by existing tests) is listed in known_findings.json.",
+    "DESIGN.md §3 C19")
+
 ALL = ["C%02d" % i for i in range(1, 21)]
 NA_REASON = "check not built yet in this round; see DESIGN.md for the planned bounded exploration"
 
